@@ -77,6 +77,17 @@ func genXCase(t *rapid.T, mode string) XCase {
 	}
 	c.NoCB = rapid.IntRange(0, 3).Draw(t, "noCallback") == 0
 	c.Iface = rapid.IntRange(0, 2).Draw(t, "interfaceTypedValue") == 0
+	if !c.Iface && rapid.IntRange(0, 2).Draw(t, "aliasKeyMapping") == 0 {
+		// an ECache whose key mapping sends two primary-key spellings to one inner key: every call draws its spelling
+		c.Alias = true
+		for i := range c.Programs {
+			for j := range c.Programs[i] {
+				if c.Programs[i][j].K != "c" {
+					c.Programs[i][j].Up = rapid.Bool().Draw(t, "upperCaseSpelling")
+				}
+			}
+		}
+	}
 	if rapid.Bool().Draw(t, "errorShaped") { // every other case: the failing creations return another shape of error value
 		c.ErrKind = rapid.IntRange(0, NErrKinds-1).Draw(t, "errkind")
 	}
@@ -114,6 +125,9 @@ func recordXCase(prop string, c XCase, info XInfo, mode string) {
 	add(info.Overlap, "two_workers_in_getorcreate_of_one_key")
 	add(info.MidMutation, "removal_between_creation_start_and_insertion")
 	add(c.Iface, "interface_typed_value")
+	add(c.Alias, "alias_key_mapping")
+	add(info.AliasHit, "alias_hit_or_wait_through_the_other_spelling")
+	add(info.AliasLeft, "alias_value_left_after_a_hit_through_the_other_spelling")
 	add(normErr(c.ErrKind) != ErrPlain, "failing_creations_return_error_"+errKindNames[normErr(c.ErrKind)])
 	add(info.NilCreated > 0, "iface_creation_returned_nil_value")
 	add(info.NilDeleted > 0, "iface_nil_value_passed_to_delete_callback")
@@ -125,6 +139,7 @@ func recordXCase(prop string, c XCase, info XInfo, mode string) {
 	add(info.SqueezedCompletion, "squeezed_waiters_overtaken_by_another_insertion")
 	add(info.SqueezedCall, "squeezed_waiters_overtaken_by_a_call")
 	add(info.Diverged, "abandoned_functional_divergence")
+	cl = append(cl, info.Retain.Classes(c.NoCB)...)
 	st := vstat.For(prop)
 	if info.Inconclusive {
 		st.Inconclusivef("the linearizability checker gave up on a history of %d calls", info.Calls)
@@ -135,6 +150,9 @@ func recordXCase(prop string, c XCase, info XInfo, mode string) {
 		st.AddExtra("lru_conc_verifwalk_calls", int64(info.Walks))
 		st.AddExtra("lru_conc_squeezes", int64(info.Squeezes))
 		st.AddExtra("lru_conc_calls_executed", int64(info.Calls))
+		st.AddExtra("lru_retention_measurements", int64(info.Retain.Measures))
+		st.AddExtra("lru_retention_measurements_undecided", int64(info.Retain.Undecided))
+		st.AddExtra("lru_retention_gc_cycles", int64(info.Retain.Cycles))
 	} else {
 		st.AddExtra("cache_calls", int64(info.Calls))
 		st.AddExtra("verifwalk_calls", int64(info.Walks))
@@ -199,7 +217,7 @@ func TestC11LruConc(t *testing.T) {
 	rapid.Check(t, func(rt *rapid.T) {
 		c := genXCase(rt, modeSqueezed)
 		info, v, hist := RunSqueezed(c, propWalk, "TestC11LruConc")
-		if v != nil && !strings.HasPrefix(v.Sig, "lru:walk-") {
+		if v != nil && !strings.HasPrefix(v.Sig, "lru:walk-") && !strings.HasPrefix(v.Sig, "lru:retain-") {
 			info.Diverged, v = true, nil
 		}
 		if v != nil {
@@ -244,7 +262,7 @@ func init() {
 		needSqueeze(t, propWalk)
 		replayRuns(t, path, 20, func(c XCase) (XInfo, *vstat.Violation, []XRec) {
 			info, v, hist := RunSqueezed(c, propWalk, "TestReplay")
-			if v != nil && !strings.HasPrefix(v.Sig, "lru:walk-") {
+			if v != nil && !strings.HasPrefix(v.Sig, "lru:walk-") && !strings.HasPrefix(v.Sig, "lru:retain-") {
 				info.Diverged, v = true, nil
 			}
 			return info, v, hist
